@@ -202,8 +202,14 @@ func cmdCheck(args []string) {
 	if *prop == "" {
 		fatal("missing -prop")
 	}
-	if t := os.Getenv("VERIF_TIER"); t == "quick" || t == "thorough" {
-		*tier = t
+	tierGiven := false
+	fs.Visit(func(f *flag.Flag) {
+		if f.Name == "tier" {
+			tierGiven = true
+		}
+	})
+	if t := os.Getenv("VERIF_TIER"); !tierGiven && (t == "quick" || t == "thorough") {
+		*tier = t // the environment chooses the tier only when the command line does not
 	}
 	seed := 0
 	if s := os.Getenv("VERIF_SEED"); s != "" {
@@ -223,7 +229,20 @@ func cmdCheck(args []string) {
 		}
 		var doc ReplayDoc
 		json.Unmarshal(b, &doc)
-		out, ok := w.replayNative(ovp, &doc, *replayPath, false)
+		abs, aerr := filepath.Abs(*replayPath)
+		if aerr == nil {
+			*replayPath = abs // the native test runs in the package directory
+		}
+		var out string
+		var ok bool
+		if doc.Kind == "race" {
+			out, ok = w.replayRace(ovp, &doc, *replayPath)
+		} else {
+			out, ok = w.replayNative(ovp, &doc, *replayPath, false)
+			if !ok {
+				out, ok = w.replayNative(ovp, &doc, *replayPath, true)
+			}
+		}
 		fmt.Print(out)
 		if ok {
 			fmt.Printf("VIOLATION property=%s replay=%s\n", doc.Property, *replayPath)
